@@ -4,7 +4,10 @@
    html.parser tokenisation and BeautifulSoup tree building are correspondence-only.
    END-TO-END theorems (wave 5, at the end of this file): for SRT, MicroDVD and WebVTT (all but the references the reader leaves literal) the statement itself - the harness
    oracle ok_lines_a between spec display and the reader MODEL applied to the spec serialisation - is proved on a stated
-   domain; DFXP / SAMI stay at component level (tree walk, text-node matcher, SAMI stage 1) + oracle on the real readers. *)
+   domain; DFXP: wave 7 string-level theorem C04_dfxp_str_end_to_end_partial (text and <br/> with LF wraps, one spelling per character,
+   no spans - hence _partial; the reference decoding in it is the SPEC parser undoing xml_escape, the reader model contributes the wrap
+   join and <br/>); DFXP with inline elements and SAMI stay at component level (tree walk, text-node matcher, SAMI stage 1) + oracle on
+   the real readers.  C04_vtt_end_to_end_partial: _partial because numeric / HTML named references (left literal by the reader) are excluded. *)
 From Coq Require Import List ZArith Bool.
 From PV Require Import lib.Sx lib.Str lib.Result model.TextNodes model.TextRead.
 From PV Require Import spec.SpecTextXml spec.SpecTextLines spec.SpecTextRead spec.SpecTextDfxpStr proofs.TextReadStrFacts.
@@ -190,10 +193,10 @@ Print Assumptions C04_mdvd_end_to_end.
      - unknown tags (names of letters, digits, _ and -, beginning with a letter) stay literal; comments / PIs.
    The reader strips every line before decoding; strip_line shows this commutes with the three substitutions up to the
    white space at the ends, which the comparison ignores. *)
-Theorem C04_vtt_end_to_end : forall items, forallb vtt_item_ok items = true ->
+Theorem C04_vtt_end_to_end_partial : forall items, forallb vtt_item_ok items = true ->
   ok_lines_a (SpecTextRead.display items) (node_lines (read_vtt true items)) = true.
 Proof. exact vtt_end_to_end_any. Qed.
-Print Assumptions C04_vtt_end_to_end.
+Print Assumptions C04_vtt_end_to_end_partial.
 
 (* when no source line begins or ends with white space the reader model's lines ARE the displayed lines *)
 Theorem C04_vtt_end_to_end_exact : forall items, forallb vtt_item_ok items = true -> lines_trimmed items = true ->
@@ -274,11 +277,13 @@ Print Assumptions C04_dfxp_text_node_wrapped.
    CR - & < > quotes ]]> and entity-looking text included -, words that do not begin with white space, any wrap
    indentation, empty lines) the string render_p writes (characters escaped once, lines separated by <br/>), read by the
    strict XML content parser and the DFXP reader model, gives EXACTLY the lines a conformant consumer shows:
-   references decoded once, a wrap = one blank, <br/> = line break, no word lost. *)
-Theorem C04_dfxp_str_end_to_end : forall ls, ls <> [] -> Forall (fun l => line_ok l = true) ls ->
+   references decoded once (by the SPEC parser undoing xml_escape = C03_xml_escape_parses_back; no pycaption reader code decodes
+   anything here - in the real reader that is lxml / bs4, tied by execution), a wrap = one blank and <br/> = line break (the
+   reader model's part), no word lost.  _partial: no inline spans, one spelling per character, no CR / CRLF wraps. *)
+Theorem C04_dfxp_str_end_to_end_partial : forall ls, ls <> [] -> Forall (fun l => line_ok l = true) ls ->
   read_p (render_p ls) = Some (map shown_line ls).
 Proof. exact dfxp_str_end_to_end. Qed.
-Print Assumptions C04_dfxp_str_end_to_end.
+Print Assumptions C04_dfxp_str_end_to_end_partial.
 
 Example C04_example_dfxp_str :
   let ls := [(lit "a &lt; <b> ", [(lit "   ", lit "c ]]> &amp;"); ([9], lit "d")]); ([], []); (lit "x", [])] in
